@@ -1,11 +1,11 @@
 /-
 C10 helper lemmas, part 8g (De Morgan on trees WITH alias chains).  `DeMorganSimplifier` reads the
-tree through `dealias` everywhere except in `add_negation_for_operands` (`std::get<Joined>` on the
-un-dealiased id).  Hence, whenever the transformation returns, it returns exactly what it returns
-on the RESOLVED tree (every alias node replaced by the definition at the end of its alias chain),
+tree through `dealias` everywhere (since repo commit 9889e64 also in `add_negation_for_operands`).
+Hence the transformation returns exactly what it returns on the RESOLVED tree (every alias node replaced by the definition at the end of its alias chain),
 which has no alias nodes: the alias-free soundness theorem transfers.
 -/
 import CelerVerif.Lemmas.CsgDeMorganD
+import CelerVerif.Lemmas.CsgDeMorganF
 
 namespace CelerVerif.Csg
 
@@ -190,93 +190,33 @@ theorem buildSimplifiedTree_congr {t1 t2 : Tree} (h : SameView t1 t2) (fl : DMFl
   unfold buildSimplifiedTree
   rw [dmStep_congr h, h.size, h.vols]
 
-/-- `foldE` is monotone in the step function w.r.t. "succeeds with" -/
-theorem foldE_imp {α β ε : Type} (f g : α → β → Except ε α)
-    (h : ∀ a b a', f a b = .ok a' → g a b = .ok a') :
-    ∀ (l : List β) (a a' : α), foldE f l a = .ok a' → foldE g l a = .ok a' := by
-  intro l
-  induction l with
-  | nil => intro a a' hf; exact hf
-  | cons b bs ih =>
-    intro a a' hf
-    unfold foldE at hf ⊢
-    cases h1 : f a b with
-    | error e => rw [h1] at hf; cases hf
-    | ok a1 =>
-      rw [h1] at hf
-      rw [h a b a1 h1]
-      exact ih a1 a' hf
-
-/-- the only un-dealiased read: if it succeeds on `t1` it reads the same join on `t2` -/
-theorem addNegation_imp {t1 t2 : Tree} (h : SameView t1 t2)
-    (hj : ∀ n op ns, t1.get n = .joined op ns → t2.get n = .joined op ns) :
-    ∀ (fuel nodeId : Nat) (fl fl' : DMFlags),
-    addNegationForOperands t1 fuel nodeId fl = .ok fl' →
-    addNegationForOperands t2 fuel nodeId fl = .ok fl' := by
+theorem addNegation_congr {t1 t2 : Tree} (h : SameView t1 t2) :
+    ∀ (fuel nodeId : Nat) (fl : DMFlags),
+    addNegationForOperands t1 fuel nodeId fl = addNegationForOperands t2 fuel nodeId fl := by
   intro fuel
   induction fuel with
-  | zero => intro nodeId fl fl' hf; simp [addNegationForOperands] at hf
+  | zero => intro nodeId fl; rfl
   | succ fuel ih =>
-    intro nodeId fl fl' hf
-    unfold addNegationForOperands at hf ⊢
-    cases hg : t1.get nodeId with
-    | joined op operands =>
-      rw [hg] at hf
-      rw [hj nodeId op operands hg]
-      simp only at hf ⊢
-      refine foldE_imp _ _ ?_ operands fl fl' hf
-      intro a b a' hstep
-      simp only [← h.deal] at hstep ⊢
-      by_cases hjb : isJoined (dealiased t1 b) = true
-      · rw [if_pos hjb] at hstep ⊢
-        exact ih b _ a' hstep
-      · rw [if_neg hjb] at hstep ⊢
-        exact hstep
-    | tru | fls | aliased _ | negated _ | surface _ => rw [hg] at hf; cases hf
+    intro nodeId fl
+    unfold addNegationForOperands
+    simp only [h.deal, ih]
 
-theorem fjStep_imp {t1 t2 : Tree} (h : SameView t1 t2)
-    (hj : ∀ n op ns, t1.get n = .joined op ns → t2.get n = .joined op ns)
-    (fl fl' : DMFlags) (nodeId : Nat) (hf : fjStep t1 fl nodeId = .ok fl') :
-    fjStep t2 fl nodeId = .ok fl' := by
-  unfold fjStep at hf ⊢
-  rw [← h.deal]
-  cases hd : dealiased t1 nodeId with
-  | negated c =>
-    rw [hd] at hf
-    simp only [← h.deal, ← h.size] at hf ⊢
-    by_cases hjc : isJoined (dealiased t1 c) = true
-    · rw [if_pos hjc] at hf ⊢
-      exact addNegation_imp h hj _ _ _ fl' hf
-    · rw [if_neg hjc] at hf ⊢
-      exact hf
-  | tru | fls | aliased _ | surface _ | joined _ _ => rw [hd] at hf; exact hf
+theorem fjStep_congr {t1 t2 : Tree} (h : SameView t1 t2) : fjStep t1 = fjStep t2 := by
+  funext fl nodeId
+  unfold fjStep
+  simp only [h.deal, h.size, addNegation_congr h]
 
-theorem findJoinNegations_imp {t1 t2 : Tree} (h : SameView t1 t2)
-    (hj : ∀ n op ns, t1.get n = .joined op ns → t2.get n = .joined op ns) {fl : DMFlags}
-    (hf : findJoinNegations t1 = .ok fl) : findJoinNegations t2 = .ok fl := by
-  unfold findJoinNegations at hf ⊢
-  simp only [← h.size, ← h.vols] at hf ⊢
-  cases h1 : foldE (fjStep t1) (List.range t1.size)
-      { newNeg := fun _ => false, negJoin := fun _ => false,
-        parents := Array.replicate (t1.size * t1.size) false, size := t1.size } with
-  | error e => rw [h1] at hf; cases hf
-  | ok fl1 =>
-    rw [h1] at hf
-    rw [foldE_imp (fjStep t1) (fjStep t2) (fun a b a' hs => fjStep_imp h hj a a' b hs) _ _ _ h1]
-    exact hf
+theorem findJoinNegations_congr {t1 t2 : Tree} (h : SameView t1 t2) :
+    findJoinNegations t1 = findJoinNegations t2 := by
+  unfold findJoinNegations
+  simp only [fjStep_congr h, h.size, h.vols]
 
-theorem transformNegatedJoins_imp {t1 t2 : Tree} (h : SameView t1 t2)
-    (hj : ∀ n op ns, t1.get n = .joined op ns → t2.get n = .joined op ns) {t' : Tree}
-    (hf : transformNegatedJoins t1 = .ok t') : transformNegatedJoins t2 = .ok t' := by
-  unfold transformNegatedJoins at hf ⊢
-  cases h1 : findJoinNegations t1 with
-  | error e => rw [h1] at hf; cases hf
-  | ok fl =>
-    rw [h1] at hf
-    rw [findJoinNegations_imp h hj h1]
-    simp only at hf ⊢
-    rw [← buildSimplifiedTree_congr h]
-    exact hf
+/-- since `add_negation_for_operands` de-aliases too (repo commit 9889e64), the whole
+    transformation reads the tree only through `dealiased`, `size` and `volumes` -/
+theorem transformNegatedJoins_congr {t1 t2 : Tree} (h : SameView t1 t2) :
+    transformNegatedJoins t1 = transformNegatedJoins t2 := by
+  unfold transformNegatedJoins
+  simp only [findJoinNegations_congr h, buildSimplifiedTree_congr h]
 
 /-! ### soundness with alias chains -/
 
@@ -289,12 +229,6 @@ structure DMPreA (t : Tree) : Prop where
 theorem resolve_sameView {t : Tree} (s : Struct t) (hso : Sorted t) :
     SameView t (resolveTree t) :=
   ⟨fun n => (dealiased_resolve s hso n).symm, (size_resolve t).symm, rfl⟩
-
-theorem resolve_join {t : Tree} (s : Struct t) (hso : Sorted t) (n : Nat) (op : Op) (ns : List Nat)
-    (hg : t.get n = .joined op ns) : (resolveTree t).get n = .joined op ns := by
-  rw [get_resolve]
-  unfold dealiased
-  rw [dealias_nonalias _ (fun a h => by rw [hg] at h; cases h)]; exact hg
 
 theorem resolve_dmPre {t : Tree} (s : Struct t) (hso : Sorted t) (pre : DMPreA t) :
     DMPre (resolveTree t) where
@@ -320,12 +254,31 @@ theorem transformNegatedJoins_sound_alias {t t' : Tree} (s : Struct t) (hso : So
     (∀ k (hk : k < t.volumes.length) (hk' : k < t'.volumes.length) σ,
       denote t' σ (t'.volumes[k]) = denote t σ (t.volumes[k])) ∧
     (∀ i u, i < t'.size → t'.get i = .negated u → IsLeaf (t'.get u)) := by
-  have h' := transformNegatedJoins_imp (resolve_sameView s hso) (resolve_join s hso) h
+  have h' : transformNegatedJoins (resolveTree t) = .ok t' := by
+    rw [← transformNegatedJoins_congr (resolve_sameView s hso)]; exact h
   rcases transformNegatedJoins_sound' (resolve_dmPre s hso pre) (resolve_struct s hso)
     (resolve_sorted s hso) (by simpa using hsmall) h' with ⟨h1, h2, h3, h4, _⟩
   refine ⟨h1, h2, fun k hk hk' σ => ?_, h4⟩
   have := h3 k hk hk' σ
   rw [this]
   exact denote_resolve s hso σ (hvol _ (List.getElem_mem hk))
+
+theorem resolve_treeInv {t : Tree} (inv : TreeInv t) : TreeInv (resolveTree t) where
+  struct := resolve_struct inv.struct inv.sorted
+  sorted := resolve_sorted inv.struct inv.sorted
+  map := by
+    intro σ
+    have hm : MapSound (resolveTree t) σ (denote t σ) := inv.map σ
+    exact mapSound_congr (resolve_struct inv.struct inv.sorted)
+      (fun i hi => (denote_resolve inv.struct inv.sorted σ (by simpa using hi)).symm) hm
+
+/-- ★ definedness on trees with alias chains: under `DMPreA` the transformation always returns -/
+theorem transformNegatedJoins_defined_alias {t : Tree} (inv : TreeInv t) (pre : DMPreA t)
+    (hvol : ∀ v ∈ t.volumes, v < t.size) (hsmall : 3 * t.size + 2 ≤ invalid) :
+    ∃ t', transformNegatedJoins t = .ok t' := by
+  rw [transformNegatedJoins_congr (resolve_sameView inv.struct inv.sorted)]
+  exact transformNegatedJoins_defined (resolve_dmPre inv.struct inv.sorted pre)
+    (resolve_treeInv inv) (fun v hv => by rw [size_resolve]; exact hvol v hv)
+    (by simpa using hsmall)
 
 end CelerVerif.Csg
